@@ -674,19 +674,19 @@ def correspond(ctx, model):
     for desc in fixed:
         check_estimates(ctx, model, desc, None, ladder)
     check_nilpotent(ctx, model)
-    for i in range(ctx.n(24, 200)):
+    for i in range(ctx.n(60, 250)):
         desc = G.gen_operator(rng)
         key = [None, 0, 1, 2, 3][int(rng.integers(0, 5))]
         conv = desc.get("flavour") == "gapped"
         check_estimates(ctx, model, desc, key, ladder + ([60] if conv else []), converged_check=conv)
     # -- estimators ---------------------------------------------------------------------
-    for i in range(ctx.n(40, 400)):
+    for i in range(ctx.n(90, 500)):
         desc = G.gen_operator(rng)
         case = {"what": "pdhg", "desc": desc, "ratio": float([1.0, 0.5, 2.0, 4.0, 0.125][int(rng.integers(0, 5))]),
                 "factor": ["default", "default", None, 1.0, 1.5, 2.0][int(rng.integers(0, 6))],
                 "maxiter": int([0, 1, 2, 5, 20, 40][int(rng.integers(0, 6))]), "key": [None, 1, 2][int(rng.integers(0, 3))]}
         check_pdhg(ctx, model, case)
-    for i in range(ctx.n(30, 300)):
+    for i in range(ctx.n(60, 400)):
         dA = G.gen_operator(rng, ["matrix-real", "diag-real", "rank-one", "gapped", "matrix-complex"][int(rng.integers(0, 5))])
         MA = G.dense(dA)
         if rng.integers(0, 2):
@@ -698,7 +698,7 @@ def correspond(ctx, model):
         case = {"what": "padmm", "A": dA, "B": dB, "factor": ["default", None, 1.5, 2.0][int(rng.integers(0, 4))],
                 "maxiter": int([0, 1, 2, 5, 20, 40][int(rng.integers(0, 6))]), "key": [None, 1, 2][int(rng.integers(0, 3))]}
         check_padmm(ctx, model, case)
-    for i in range(ctx.n(15, 150)):
+    for i in range(ctx.n(40, 200)):
         check_nlpadmm(ctx, model, rng)
     # -- closed-form norms: every order ------------------------------------------------------
     for case in diag_cases(rng, ctx.n(6, 60)):
